@@ -277,6 +277,7 @@ namespace bloch::runtime {
         // A runtime error raised by a user destructor cannot leave the shared_ptr deleter that
         // runs it; it is kept here and reported at the next statement boundary.
         std::exception_ptr m_pendingDestructorError;
+        int m_destructorDepth = 0;  // user destructor bodies currently running (they nest)
         std::unordered_map<const Expression*, std::vector<int>> m_measurements;
         std::unordered_map<std::string, std::unordered_map<std::string, int>> m_trackedCounts;
         bool m_echoEnabled = true;
